@@ -282,14 +282,22 @@ int main(int argc, char** argv) {
         for (int j = 0; j < m->nu; j++) d->ctrl[j] = r.uniform(-1, 1);
         g_scenario += std::string(" ") + calls[ci].name;
         size_t ps = d->pstack, pb = d->pbase;
-        int nbad = d->warning[mjWARN_BADQPOS].number + d->warning[mjWARN_BADQVEL].number + d->warning[mjWARN_BADQACC].number;
+        uint64_t nbad = g_nunstable; mjtNum t0 = d->time;
+        bool advances = !strncmp(calls[ci].name, "mj_step", 7) || !strncmp(calls[ci].name, "mj_Euler", 8);
         bool e = ND_GUARD({ calls[ci].fn(m, d, rr); });
         if (e) { count("mju_error_in_call"); if (g_args.verbose) printf("ERR %s: %.100s\n", calls[ci].name, g_lasterr); ended = true; break; }
         // an automatic reset (like mj_resetData itself) clears the whole stack by design: inside a caller's open frame the
         // pointer is then 0, not the entry value; not counted as a violation (DESIGN.md, C19)
-        if (outer && (d->warning[mjWARN_BADQPOS].number + d->warning[mjWARN_BADQVEL].number + d->warning[mjWARN_BADQACC].number != nbad)) { count("autoreset_inside_caller_frame"); ended = true; break; }
-        if (d->pstack != ps || d->pbase != pb)
-          violation("stack-not-restored", "%s returned with pstack/pbase %zu/%zu, entered with %zu/%zu", calls[ci].name, (size_t)d->pstack, (size_t)d->pbase, ps, pb);
+        mjtNum texp = t0; if (advances) texp += m->opt.timestep;
+        // (simulated time is the reliable sign of a reset: the per-instance counters are cleared by it)
+        if (outer && (g_nunstable != nbad || d->time != texp)) { count("autoreset_inside_caller_frame"); ended = true; break; }
+        if (d->pstack != ps || d->pbase != pb) {
+          // the class carries the call, so that a recorded finding covers exactly one entry point
+          std::string cls = std::string("stack-not-restored:") + calls[ci].name;
+          violation_or_continue(cls.c_str(), "%s returned with pstack/pbase %zu/%zu, entered with %zu/%zu (warnings of the instance: BADQPOS %d BADQVEL %d BADQACC %d)", calls[ci].name, (size_t)d->pstack, (size_t)d->pbase, ps, pb,
+                                d->warning[mjWARN_BADQPOS].number, d->warning[mjWARN_BADQVEL].number, d->warning[mjWARN_BADQACC].number);
+          ended = true; break;   // (tolerated finding: the instance is not usable any more)
+        }
         if (d->threadlock) violation("threadlock", "%s returned with the thread lock set", calls[ci].name);
         count("api_calls_checked");
         sig = fnv(&ci, sizeof ci, sig);
